@@ -30,10 +30,10 @@ CONSTANTS
   ArrayDefaultConverted,   \* D3: the default of an array parameter is bound item-wise (FALSE: reflect.Set panic)
   FormatDefaultParsed,     \* D4: the default of a TextUnmarshaler-typed parameter is unmarshalled (FALSE: reflect.Set panic)
   HeaderCanonicalLookup,   \* D5: header parameters are looked up by the canonical form of the declared name (FALSE: exact key)
-  NamedStringValidated,    \* D22: values of named string types (uuid, password, ...) reach the validators as strings
+  NamedStringValidated,    \* D31: values of named string types (uuid, password, ...) reach the validators as strings
                            \*      (FALSE: stringValidator rejects every value: always 422)
-  RequiredFileIs422,       \* D23: a missing required file parameter is a `required` failure (FALSE: ParseError, status 400)
-  ItemFormatValidated      \* D24: array items of named-string formats are checked against their format (FALSE: validate's
+  RequiredFileIs422,       \* D32: a missing required file parameter is a `required` failure (FALSE: ParseError, status 400)
+  ItemFormatValidated      \* D33: array items of named-string formats are checked against their format (FALSE: validate's
                            \*      items validator consults the format of the array parameter; any text is accepted)
 
 (* ------------------------------ bytes ----------------------------------- *)
